@@ -595,6 +595,8 @@ def _execute_task(
             raise thread_exception
         else:
             future_queue.task_done()
+    else:
+        future_queue.task_done()
 
 
 def _execute_task_with_cache(
@@ -638,6 +640,8 @@ def _execute_task_with_cache(
                 raise thread_exception
             else:
                 future_queue.task_done()
+        else:
+            future_queue.task_done()
     else:
         _, result = get_output(file_name=file_name)
         future = task_dict["future"]
